@@ -28,7 +28,7 @@ type sealedCase struct {
 
 // drawSealed draws a valid (inner, outer, key, suite) tuple and seals it.
 func drawSealed(t *rapid.T, big bool) *sealedCase {
-	pub := hello.GenName(t, "public_name", 253)
+	pub := hello.MixCase(t, "public_name", hello.GenName(t, "public_name", 253))
 	key := drawKey(t, "key", -1, pub)
 	tp := hello.GenTuple(t, hello.TupleOpts{PublicName: pub, Big: big})
 	for {
@@ -138,7 +138,11 @@ func (sc *sealedCase) classes() []string {
 
 // checkAcceptedExact asserts the C03 oracle for one sealed case under keys.
 func checkAcceptedExact(t ev.Failer, prop string, sc *sealedCase, tr *wire.Conn, keys []*hello.Key) {
+	snap := keySnapshot(keys)
 	c, err := newConn(context.Background(), tr, echKeys(keys...))
+	if keysChanged(keys, snap) {
+		ev.Violation(t, prop, sc.replay(), "NewConn modified the key configs it was given (the application reuses them for its next connections)")
+	}
 	if err != nil {
 		ev.Violation(t, prop, sc.replay(), "valid ECH hello not accepted: NewConn error: %v", err)
 	}
@@ -180,7 +184,11 @@ func TestC03(t *testing.T) {
 		rec.Case(sc.layoutKey(), sc.Tuple.RunLen > 0, sc.classes(), func() any {
 			return map[string]any{"layout": sc.layoutKey(), "inner": hello.Layout(sc.Tuple.Inner.Exts), "outer": hello.Layout(sc.Tuple.Outer.Exts), "record_len": len(sc.Record)}
 		})
+		withDebug = rapid.Bool().Draw(t, "with_debug")
+		defer func() { withDebug = false }()
 		tr := wire.New(sc.Record, io.EOF)
 		checkAcceptedExact(t, "C03", sc, tr, []*hello.Key{sc.Key})
+		// the same key material serves the application's next connection just as well
+		checkAcceptedExact(t, "C03", sc, wire.New(sc.Record, io.EOF), []*hello.Key{sc.Key})
 	})
 }
